@@ -567,7 +567,8 @@ pub fn types() -> Vec<TypeCase> {
         tco!("HashMap<String,i32>", HashMap<String, i32>, |r| js(&(0..r.range(0, 5)).map(|_| (rs(r), r.next() as i32)).collect::<HashMap<_, _>>())),
         tco!("BTreeMap<i32,String>", BTreeMap<i32, String>, |r| js(&(0..r.range(0, 5)).map(|_| (r.next() as i32 >> r.below(32), rs(r))).collect::<BTreeMap<_, _>>())),
         tc!("BTreeMap<u64,bool>", BTreeMap<u64, bool>, |r| js(&(0..r.range(0, 5)).map(|_| (r.next() >> r.below(64), r.chance(1, 2))).collect::<BTreeMap<_, _>>())),
-        tc!("BTreeMap<i128,u8>", BTreeMap<i128, u8>, |r| js(&(0..r.range(0, 3)).map(|_| ((r.next() as i128) << r.below(60), r.next() as u8)).collect::<BTreeMap<_, _>>())),
+        tc!("BTreeMap<i128,u8>", BTreeMap<i128, u8>, |r| js(&(0..r.range(0, 3)).map(|_| (if r.chance(1, 2) { (r.next() as i128) << r.below(60) } else { (r.next() as i64 as i128) << r.below(63) }, r.next() as u8)).collect::<BTreeMap<_, _>>())),
+        tc!("BTreeMap<u128,i8>", BTreeMap<u128, i8>, |r| js(&(0..r.range(0, 3)).map(|_| (match r.below(4) { 0 => u128::MAX - r.below(3) as u128, 1 => (u64::MAX as u128) + r.below(3) as u128, 2 => (r.next() as u128) << r.below(64), _ => r.next() as u128 }, r.next() as i8)).collect::<BTreeMap<_, _>>())),
         tc!("BTreeMap<bool,u8>", BTreeMap<bool, u8>, |r| (*r.pick(&["{\"true\":1}", "{\"false\":0,\"true\":2}", "{}", "{\"True\":1}", "{\"1\":1}"])).to_string()),
         tc!("BTreeMap<Fieldless,u8>", BTreeMap<Fieldless, u8>, |r| js(&(0..r.range(0, 3)).map(|_| (fieldless(r), r.next() as u8)).collect::<BTreeMap<_, _>>())),
         tc!("BTreeMap<Option<String>,u8>", BTreeMap<Option<String>, u8>, |r| (*r.pick(&["{\"a\":1}", "{}", "{\"\":2}", "{\"null\":1}"])).to_string()),
